@@ -85,6 +85,9 @@ def run_scenario(sc: dict[str, Any]) -> dict[str, Any]:
         fns = {h: sim.handler(h, hs[h]['script'], kind='change', sync=(smode == 'all' or (smode == 'mixed' and h in ('a', 'c', 'r'))))
                for h in order}
 
+        from vf import daemons as _D
+        dfns = {hid: _D.make_daemon_fn(sim, hid, c) for hid, c in (sc.get('daemons') or {}).items()}
+
         def registry():
             reg = sim.registry()
             flt = {'labels': {'on': 'yes'}} if use_label else {}
@@ -98,6 +101,9 @@ def run_scenario(sc: dict[str, Any]) -> dict[str, Any]:
                     elif reason == 'update': kopf.on.update(GROUP, VERSION, PLURAL, **kw)(fns[h])
                     elif reason == 'delete': kopf.on.delete(GROUP, VERSION, PLURAL, optional=c['optional'], **kw)(fns[h])
                     elif reason == 'resume': kopf.on.resume(GROUP, VERSION, PLURAL, deleted=c['deleted'], **kw)(fns[h])
+            for hid, c in (sc.get('daemons') or {}).items():        # daemons on the same object (scripted reactions, see vf/daemons.py)
+                kopf.daemon(GROUP, VERSION, PLURAL, registry=reg, id=hid, cancellation_backoff=c['backoff'] or None,
+                            cancellation_timeout=c['timeout'] or None, cancellation_polling=3, **flt)(dfns[hid])
             return reg
 
         def settings():
@@ -206,7 +212,11 @@ def conf_of(sc: dict[str, Any]) -> dict[str, Any]:
     hc = {h: ({'reasons': list(hs[h]['reasons']), 'optional': hs[h]['optional'], 'deleted': hs[h]['deleted'],
                'retries': hs[h]['retries'], 'mode': hs[h]['errors'], 'backoff': hs[h]['backoff']} if h in hs else none)
           for h in UNIVERSE}
-    return {'hc': hc, 'order': order, 'lifecycle': sc.get('lifecycle', 'asap'), 'ctimeout': sc.get('ctimeout', 5)}
+    conf = {'hc': hc, 'order': order, 'lifecycle': sc.get('lifecycle', 'asap'), 'ctimeout': sc.get('ctimeout', 5)}
+    if sc.get('daemons'):
+        conf.update(dh={hid: {'kind': 'daemon', 'backoff': c['backoff'], 'timeout': c['timeout'], 'sync': bool(c.get('sync'))}
+                        for hid, c in sc['daemons'].items()}, polling=3, exitto=2)
+    return conf
 
 
 def _rvparse(v: Any, off: int) -> int:
@@ -229,6 +239,7 @@ def convert(raw: list[dict[str, Any]], hs: dict[str, Any], sc: dict[str, Any]) -
     envfin: dict[str, Any] = {}
     scheds: dict[int, str] = {}
     killed: set[Any] = set()
+    exiting: set[Any] = set()
     up0 = True
     for e in raw:
         ev = e['ev']; t = e['t']
@@ -314,6 +325,13 @@ def convert(raw: list[dict[str, Any]], hs: dict[str, Any], sc: dict[str, Any]) -
                     p = e['proj']
                     rec.update(fins=p['fins'], rv=p['rv'] - off, gone=bool(e.get('gone')))
                 out.append(rec)
+        elif ev == 'd.enter': out.append({'ev': 'enter', 't': t, 'h': e['h']})
+        elif ev == 'd.flagseen': out.append({'ev': 'flagseen', 't': t, 'h': e['h']})
+        elif ev == 'd.cancel': out.append({'ev': 'cancel', 't': t, 'h': e['h']})
+        elif ev == 'd.exit': out.append({'ev': 'exit', 't': t, 'h': e['h']})
+        elif ev == 'op.stop' and sc.get('daemons') and e.get('loop') not in exiting:
+            exiting.add(e.get('loop'))
+            out.append({'ev': 'exiting', 't': t})       # the exit begins: the daemon killer makes its last round, the stream closes next
         elif ev == 'op.kill':
             killed.add(e.get('loop'))
             out.append({'ev': 'kill', 't': t})
@@ -332,7 +350,7 @@ def _objfields(p: dict[str, Any], off: int) -> dict[str, Any]:
 
 
 # --------------------------------------------------------------------------- judging
-_RE_VERDICT = re.compile(r'<<"VERDICT",\s*(\d+),\s*"([^"]*)",\s*(-?\d+),\s*(-?\d+),\s*(\d+),\s*"([^"]*)",\s*"([^"]*)">>')
+_RE_VERDICT = re.compile(r'<<\s*"VERDICT",\s*(\d+),\s*"([^"]*)",\s*(-?\d+),\s*(-?\d+),\s*(\d+),\s*"([^"]*)",\s*"([^"]*)"\s*>>')
 
 
 def _tla_set(xs) -> str:
@@ -421,7 +439,7 @@ def gen_scenarios(seed: int, n: int, profile: str) -> list[dict[str, Any]]:
                         retries=rnd.choice([0, 0, 2, 3]) if profile == 'errors' else 0,
                         errors=rnd.choice(['temporary', 'temporary', 'permanent', 'ignored']) if profile == 'errors' else 'temporary',
                         backoff=rnd.choice([1, 2, 3]))
-        if profile in ('finalizer', 'progress', 'converge') and rnd.random() < (0.9 if profile == 'finalizer' else 0.4):
+        if profile in ('finalizer', 'progress', 'converge', 'mixed') and rnd.random() < (0.9 if profile == 'finalizer' else 0.6 if profile == 'mixed' else 0.4):
             hs['d'] = hdl(['delete'], script(rnd.randint(0, 2)), optional=rnd.random() < 0.25, backoff=rnd.choice([1, 2]))
         if profile in ('resume', 'converge', 'progress') and rnd.random() < (0.95 if profile == 'resume' else 0.3):
             hs['r'] = hdl(['resume'], script(rnd.randint(0, 2)), deleted=rnd.random() < 0.3, backoff=rnd.choice([1, 2]))
@@ -434,10 +452,11 @@ def gen_scenarios(seed: int, n: int, profile: str) -> list[dict[str, Any]]:
             t += rnd.choice([0, 0, 1, 1, 2, 3, 5, 8])
             ph = rnd.choice([0, 1, 1])
             ops = ['edit'] * 4
-            if profile in ('finalizer', 'progress', 'converge', 'stealth'): ops += ['toggle'] * (3 if profile in ('finalizer', 'stealth') else 1)
-            if profile in ('finalizer', 'converge', 'progress') and not deleted: ops += ['delete'] * 2
-            if profile == 'finalizer': ops += ['finadd', 'findel', 'finadd']
+            if profile in ('finalizer', 'progress', 'converge', 'stealth', 'mixed'): ops += ['toggle'] * (3 if profile in ('finalizer', 'stealth', 'mixed') else 1)
+            if profile in ('finalizer', 'converge', 'progress', 'mixed') and not deleted: ops += ['delete'] * 2
+            if profile in ('finalizer', 'mixed'): ops += ['finadd', 'findel', 'finadd']
             if profile in ('progress', 'converge', 'resume', 'errors'): ops += ['kill', 'stop'] if alive else ['start'] * 4
+            if profile == 'mixed': ops += ['stop'] if alive else ['start'] * 4
             if profile in ('resume',) and alive: ops += ['relist'] * 3
             if profile == 'consistency': ops += (['release'] * 4 if held else ['hold'] * 4) + ['fedit'] * 3
             op = rnd.choice(ops)
@@ -469,7 +488,15 @@ def gen_scenarios(seed: int, n: int, profile: str) -> list[dict[str, Any]]:
               'init': {'x': 1, 'on': not (profile == 'stealth' and rnd.random() < 0.6)},
               'env': env, 'end': t + 80, 'tail_from': t + 60, 'profile': profile,
               'sync': 'all' if i % 5 == 3 else 'mixed' if i % 10 == 7 else '',     # synchronous (threaded) handlers
-              'drs': i % 6 == 5}        # every sixth history is about a ReplicaSet owned by a Deployment (marked progress keys)
+              'drs': i % 6 == 5 and profile != 'mixed'}        # every sixth history is about a ReplicaSet owned by a Deployment (marked progress keys)
+        if profile == 'mixed':       # daemons beside the change handlers on the same object
+            dm: dict[str, Any] = {}
+            for hid in ['d1', 'd2'][:rnd.choice([1, 1, 2])]:
+                reaction = rnd.choice(['obey', 'obey', 'cancel', 'ignore', 'selfexit'])
+                dm[hid] = {'kind': 'daemon', 'reaction': reaction, 'after': rnd.choice([0, 1, 2, 6]) if reaction == 'obey' else rnd.choice([1, 3, 8]),
+                           'backoff': rnd.choice([0, 2, 3]), 'timeout': rnd.choice([0, 2, 4]), 'sync': rnd.random() < 0.25}
+            sc['daemons'] = dm
+            sc['end'] = t + 100; sc['tail_from'] = t + 80
         out.append(sc)
     return out
 
